@@ -208,6 +208,34 @@ impl<MutexType: RawMutex, T> GenericOneshotChannel<MutexType, T> {
     }
 }
 
+#[cfg(futures_intrusive_verif)]
+impl<MutexType: RawMutex, T> GenericOneshotChannel<MutexType, T>
+{
+    /// Reports the internal state to the external verification harness
+    pub fn verif_snapshot(&self, f: &mut dyn FnMut(crate::verif::Item<'_>)) {
+        use crate::verif::{list_links, Entry, Item};
+        let state = self.inner.lock();
+        f(Item::Scalar("is_fulfilled", state.is_fulfilled as u64));
+        f(Item::Scalar("has_value", state.value.is_some() as u64));
+        let mut report = |queue: u8, node: &ListNode<RecvWaitQueueEntry>| {
+            f(Item::Entry(Entry {
+                queue,
+                addr: node as *const _ as usize,
+                state: match node.state {
+                    RecvPollState::Unregistered => 0,
+                    RecvPollState::Registered => 1,
+                    RecvPollState::Notified => 2,
+                },
+                waker: node.task.as_ref(),
+                num: 0,
+                links: list_links(node),
+            }))
+        };
+        state.waiters.verif_for_each(&mut |node| report(0, node));
+        state.waiters.verif_for_each_rev(&mut |node| report(0x80, node));
+    }
+}
+
 impl<MutexType: RawMutex, T> ChannelReceiveAccess<T>
     for GenericOneshotChannel<MutexType, T>
 {
@@ -408,6 +436,36 @@ mod if_alloc {
                     wait_node: ListNode::new(RecvWaitQueueEntry::new()),
                     _phantom: PhantomData,
                 }
+            }
+        }
+
+        #[cfg(futures_intrusive_verif)]
+        impl<MutexType, T> GenericOneshotSender<MutexType, T>
+        where
+            MutexType: RawMutex,
+            T: 'static,
+        {
+            /// Reports the internal state to the external verification harness
+            pub fn verif_snapshot(
+                &self,
+                f: &mut dyn FnMut(crate::verif::Item<'_>),
+            ) {
+                self.inner.channel.verif_snapshot(f)
+            }
+        }
+
+        #[cfg(futures_intrusive_verif)]
+        impl<MutexType, T> GenericOneshotReceiver<MutexType, T>
+        where
+            MutexType: RawMutex,
+            T: 'static,
+        {
+            /// Reports the internal state to the external verification harness
+            pub fn verif_snapshot(
+                &self,
+                f: &mut dyn FnMut(crate::verif::Item<'_>),
+            ) {
+                self.inner.channel.verif_snapshot(f)
             }
         }
 
